@@ -468,6 +468,23 @@ def discard : Buf → MOut
   | .eh base _ => discard base
   | _ => { res := unit }
 
+/-- `IntoWriter(w)` where `w.Write` may fail: how many `Write` calls the data takes depends on
+the chunking, which this model does not carry, so `res` is the result in case the writer
+survives; otherwise the call returns the writer's error - after closing its reader
+(`defer r.Close()` / `defer b.Discard()`), hence after everything `Close` waits for.  `waited`
+is what holds in both cases. -/
+def intoWriterF : Buf → MOut
+  | .task base _ t r =>
+    match (intoWriterF base).res with
+    | .panic => MOut.panic
+    | _ => { afterTask (intoWriter base) t r with wTerm := [], waited := (intoWriterF base).waited ++ [t] }
+  | .eh base dg =>
+    let r := cr (.eh base dg) true
+    match r.res with
+    | .panic => MOut.panic
+    | _ => { res := r.res, waited := r.wClose }
+  | b => { res := (intoWriter b).res }
+
 def dropOut (o : Out) (off : Nat) : Out :=
   match o with
   | .ok d s => .ok (d.drop off) s
@@ -626,6 +643,8 @@ inductive Method
   | toChunkReader (off : Nat) (all : Bool)
   | toReader (all : Bool)
   | discard
+  /-- `IntoWriter` into a writer whose `Write` fails after `k` successful calls -/
+  | intoWriterFailing (k : Nat)
 deriving DecidableEq, Repr
 
 def call (b : Buf) : Method → MOut
@@ -640,6 +659,7 @@ def call (b : Buf) : Method → MOut
   | .toChunkReader off all => toChunkReader b off all
   | .toReader all => toReader b all
   | .discard => discard b
+  | .intoWriterFailing _ => intoWriterF b
 
 /-- run a program and one method on its result; `none` = building the buffer panicked -/
 def exec (env : Env) (e : BufExpr) (m : Method) : Option MOut :=
